@@ -67,25 +67,26 @@ func infoFrom(ctx context.Context) *callInfo {
 
 // ServerSide is what one delivery of a request produced on the server.
 type ServerSide struct {
-	Delivered     bool   `json:"delivered"` // ServeHTTP was entered
-	ParseErr      string `json:"parse_err,omitempty"`
-	Panic         string `json:"panic,omitempty"`
-	Status        int    `json:"status"`
-	WriteHeaders  int    `json:"write_headers"` // explicit WriteHeader calls
-	Commits       int    `json:"commits"`       // times a header block was committed (must be 1)
-	Explicit      bool   `json:"explicit"`      // the server wrote something itself (WriteHeader or Write)
-	BodyBytes     int    `json:"body_bytes"`
-	WritesAfter   int    `json:"writes_after_return"`
-	WriteErrs     int    `json:"write_errs"`
-	HandlerCalls  int    `json:"handler_calls"`
-	MiddlewareOps int    `json:"middleware_calls"`
-	ServerSaw     string `json:"server_saw,omitempty"`
-	MiddlewareSaw string `json:"middleware_saw,omitempty"`
-	SecurityCalls int    `json:"security_calls"`
-	Allow         string `json:"allow,omitempty"`
-	Marker        string `json:"marker,omitempty"` // the handler's marker header, if the response carries it
-	Returned      bool   `json:"returned"`
-	TempFiles     int    `json:"temp_files"` // multipart parts that ogen handed over as *os.File (spilled to disk)
+	Delivered      bool   `json:"delivered"` // ServeHTTP was entered
+	ParseErr       string `json:"parse_err,omitempty"`
+	Panic          string `json:"panic,omitempty"`
+	Status         int    `json:"status"`
+	WriteHeaders   int    `json:"write_headers"` // explicit WriteHeader calls
+	Commits        int    `json:"commits"`       // times a header block was committed (must be 1)
+	Explicit       bool   `json:"explicit"`      // the server wrote something itself (WriteHeader or Write)
+	BodyBytes      int    `json:"body_bytes"`
+	WritesAfter    int    `json:"writes_after_return"`
+	WriteErrs      int    `json:"write_errs"`
+	HandlerCalls   int    `json:"handler_calls"`
+	MiddlewareOps  int    `json:"middleware_calls"`
+	ServerSaw      string `json:"server_saw,omitempty"`
+	MiddlewareSaw  string `json:"middleware_saw,omitempty"`
+	Middleware2Saw string `json:"middleware2_saw,omitempty"` // operation name the second middleware of the chain was handed
+	SecurityCalls  int    `json:"security_calls"`
+	Allow          string `json:"allow,omitempty"`
+	Marker         string `json:"marker,omitempty"` // the handler's marker header, if the response carries it
+	Returned       bool   `json:"returned"`
+	TempFiles      int    `json:"temp_files"` // multipart parts that ogen handed over as *os.File (spilled to disk)
 }
 
 type srvKey struct{}
@@ -146,6 +147,7 @@ func (t *SimTransport) Do(req *http.Request) (*http.Response, error) {
 		kind = f.Kind
 	}
 	name := fmt.Sprintf("t%d.o%d", ci.Task, ci.Op)
+	ci.Rec.ReqCT = req.Header.Get("Content-Type")
 
 	// in-flight alterations of the request head
 	switch kind {
